@@ -633,3 +633,30 @@ def plan_C03(ctx):
 
 
 CLAIMED["C03"] = plan_C03
+
+
+def plan_C04(ctx):
+    K = ctx.q(10, 14)
+
+    def build(corp):
+        ps = gen.c04_programs(strlens=ctx.q((0, 1, 2, 3), (0, 1, 2, 3, 4)))
+        for p in ps:
+            corp.add(p)
+        fams = {}
+        for p in ps:
+            fams[p.family] = fams.get(p.family, 0) + 1
+        return {"programs_generated": len(ps), "by_collection_kind": fams,
+                "forms": ["k, v :=", "k :=", "_, v :=", "no variables", "k, v = (outer variables, observed after the loop)"],
+                "bodies": ["yield", "no yield (accumulate)", "continue before yield", "break after yield", "mutation of the ranged collection before / after the yield / without yield", "nested range", "range inside a non-generator closure"]}
+
+    extra = {
+        "bounds": {"advances_K": K, "string_bytes": "length 0..%d, bytes fully symbolic" % ctx.q(3, 4), "slice/array/map/chan sizes": "<= 3, elements symbolic",
+                   "outside": "integer range (needs a go >= 1.22 module; the integer iterator itself is covered by C10); map iteration order (both worlds iterate in insertion order; native replay of map programs compares only that a difference exists); map insertion during iteration; unbuffered channels"},
+        "explanation": "reference = go/ssa's own lowering of the native range statement in the source (single evaluation, length snapshot, array copy) under coroutine semantics; implementation = generated loop over seq.New*Iter; flat log equality",
+    }
+    return corpus_check(ctx, "c04", build, K, 0, extra, [REF_ASSUMPTION, PROGRAM_DIM,
+                        "string range / []rune(s) / utf8.DecodeRuneInString share one engine decoder; map range and reflect.MapIter share one insertion-ordered iterator"],
+                        floors={"drivers_holds": ctx.q(150, 200)})
+
+
+CLAIMED["C04"] = plan_C04
